@@ -1003,9 +1003,16 @@ def ceil(pid):
                         dl = st["place"]["local"] if not st["place"]["proj"] else None
                         reduced = False
                         if dl is not None:
+                            # the value and its copies (the `.0` of an overflow-checked subtraction, a moved temporary)
+                            holders = {dl}
+                            for _ in range(3):
+                                for blk2 in f.blocks:
+                                    for st2 in blk2["stmts"]:
+                                        if st2["s"] == "assign" and not st2["place"]["proj"] and st2["rv"]["r"] == "use" and st2["rv"]["op"].get("k") in ("copy", "move") and st2["rv"]["op"]["place"]["local"] in holders:
+                                            holders.add(st2["place"]["local"])
                             for bb2, blk2 in enumerate(f.blocks):
                                 for st2 in blk2["stmts"]:
-                                    if st2["s"] == "assign" and st2["rv"]["r"] == "binop" and st2["rv"]["op"].startswith("Rem") and st2["rv"]["a"].get("place", {}).get("local") == dl:
+                                    if st2["s"] == "assign" and st2["rv"]["r"] == "binop" and st2["rv"]["op"].startswith("Rem") and st2["rv"]["a"].get("place", {}).get("local") in holders:
                                         reduced = True
                         if tested or reduced:
                             res.ok({"function": f.path, "expression": p[:80], "remainder_tested": True}, nontrivial=True)
